@@ -12,6 +12,8 @@ fn main() {
     drive(move |_i, r| {
         let (class, sim) = match gen.as_str() {
             "mix" => gens::gen_mix(r),
+            "c09" => gens::gen_c09(r),
+            "c14" => gens::gen_c14(r),
             "c10" => gens::gen_c10(r, false),
             "c10long" => gens::gen_c10(r, true),
             other => panic!("unknown generator {other}"),
